@@ -54,7 +54,7 @@ LEVEL = 'exploration'
 P_TARGETS = []
 BUDGET = {'quick': 30.0, 'thorough': 400.0}
 CHUNK = 100
-N_RANDOM = {'quick': 9000, 'thorough': 250000}
+N_RANDOM = {'quick': 7000, 'thorough': 200000}
 BOUNDS = {
     'quick': {'fragments': '1..4', 'descriptors_per_fragment': '1..4', 'kinds': ['$', '>', '<'], 'labels': ['', 'A', 'B', 'C'],
               'orders': [1, 2, 3], 'skeletons_all_atom': len(g4.LIB_AA), 'skeletons_coarse': len(g4.LIB_CG),
@@ -113,9 +113,14 @@ def classify(cfg, kind):
     return 'sample/%s%s/%s' % ('all-atom' if cfg['all_atom'] else 'coarse', '+terminals' if cfg['term'] else '', kind)
 
 
-def reader_agrees(sampler, cfg, tpls):
-    """Precondition: the fragment reader produced the fragments the generator constructed."""
-    fd = sampler.fragment_dict
+def reader_agrees(cfg, tpls):
+    """Precondition: the fragment reader (called on its own, not through the sampler, whose later treatment of
+    the fragments is part of what is checked) produces the fragments the generator constructed."""
+    from cgsmiles import read_fragments
+    try:
+        fd = read_fragments(cfg['text'], all_atom=cfg['all_atom'])
+    except Exception:  # noqa
+        return False
     if sorted(fd) != sorted(tpls):
         return False
     sym = 'element' if cfg['all_atom'] else 'atomname'
@@ -214,7 +219,7 @@ def check_case(case):
     key = g4.cfg_key(cfg)
     tpls = g4.templates(cfg)
     try:
-        sampler, mol = g4.run(cfg, precondition=lambda s: reader_agrees(s, cfg, tpls))
+        sampler, mol = g4.run(cfg, precondition=lambda s: reader_agrees(cfg, tpls))
     except g4.DEAD_END as e:
         return Outcome(key, False, [], skipped=True, note='dead end: %s' % type(e).__name__)
     except Exception as e:  # no molecule returned: outside the statement
